@@ -88,6 +88,11 @@ example : IsPrim (⟨.triangle, extrudeShapeTris 3 4 true, [], [(⟨3, "Position
     (extrudeShapeVerts 3 4) (extrudeShapeTris 3 4 true) :=
   ⟨rfl, rfl, by simp, by simp [extrudeShapeVerts]⟩
 
+/-- `extrude.Line` for every number of path points (fewer than 2 are rejected by the code) -/
+theorem extrudeLine_wf (n : Nat) {m : MeshVal α}
+    (h : IsPrim m (extrudeLineVerts n) (extrudeLineTris n)) : WF m :=
+  prim_wf h (extrudeLineTris_lt n) (extrudeLineTris_len n)
+
 /-- `extrude.polygon` (`Polygon`, `Circle.Extrude`, `CircleAlongSpline.Extrude`): whatever the
     floating point winding test decides for each quad (`flips`), the mesh is well-formed. -/
 theorem extrudePolygon_wf (pathLen sides : Nat) (closed : Bool) (flips : List Bool) {m : MeshVal α}
